@@ -1373,7 +1373,7 @@ func Checks() map[string]*simcore.Check {
 	return map[string]*simcore.Check{
 		"C25": {
 			ID: "C25", Engine: "migsim", Level: "fault_enumeration",
-			Rule: "plan = a history of canonical extensions, side branches (fork point and length drawn; parents above the frozen segment), reorgs onto side branches above the finalized height, finalized-marker moves, clean reopen and 1-6 blocking Freeze() rounds, written with the real rawdb.Write* accessors into rawdb.Open(SimKV, Ancient dir) - the real freezerdb, chainFreezer.freeze loop and file freezer (os->simos rewrite). Every KV mutation unit and every freezer file event carries one shared sequence number; every sequence number inside a freeze (or reopen) window is a cut (quick: seeded sample of 36 per run); each cut is materialised as a process-crash state and 2-3 power-loss states (KV: drawn suffix of unsynced units lost; files: per-file prefix of unsynced writes, torn/zero-filled last write), the real stack is reopened on it with the background freeze loop parked, all canonical accessors are compared with the reference chain, then Freeze() is run and the completed migration is judged. evaluations = histories; reboots = crash states rebooted. Non-trivial = history whose freezer advanced at least once and that rebooted >2 crash states; distinct = distinct (blocks, frozen, finalized, freeze windows, removed side blocks) fingerprints.",
+			Rule: "plan = a history of canonical extensions, side branches (fork point and length drawn; parents above the frozen segment; blocks carry 0-3 indexed transactions, side blocks re-include transactions of the canonical block of the same height and of other heights, canonical blocks re-include fork transactions), reorgs onto side branches above the finalized height, finalized-marker moves, clean reopen and 1-6 blocking Freeze() rounds, written with the real rawdb.Write* accessors into rawdb.Open(SimKV, Ancient dir) - the real freezerdb, chainFreezer.freeze loop and file freezer (os->simos rewrite). Every KV mutation unit and every freezer file event carries one shared sequence number; every sequence number inside a freeze (or reopen) window is a cut (quick: seeded sample of 36 per run); each cut is materialised as a process-crash state and 2-3 power-loss states (KV: drawn suffix of unsynced units lost; files: per-file prefix of unsynced writes, torn/zero-filled last write), the real stack is reopened on it with the background freeze loop parked, all canonical accessors are compared with the reference chain, then Freeze() is run and the completed migration is judged. evaluations = histories; reboots = crash states rebooted. Non-trivial = history whose freezer advanced at least once and that rebooted >2 crash states; distinct = distinct (blocks, frozen, finalized, freeze windows, removed side blocks) fingerprints.",
 			Assumptions: []string{
 				"a KV write batch is atomic and units become durable in order (prefix property); the harness issues SyncKeyValue after writing chain data, before each freeze (chain data the freezer reads is durable, as after geth's own block-write path)",
 				"directory-entry operations are durable immediately; file data is durable at fsync of that file (every Sync call of the tree under test is seen)",
